@@ -4,6 +4,7 @@
 //!   pmtsim replay <file>                   re-execute a replay file
 //!   pmtsim list                            list claimed properties
 
+mod alloc;
 mod case;
 mod disk;
 mod driver;
@@ -14,7 +15,9 @@ mod scen;
 mod scen_fault;
 mod scen_foreign;
 mod scen_hist;
+mod scen_hostile;
 mod scen_life;
+mod scen_misc;
 mod scen_stream;
 mod scen_write;
 mod spec;
@@ -23,6 +26,9 @@ mod sut;
 use std::path::Path;
 
 use scen::Tier;
+
+#[global_allocator]
+static GLOBAL: alloc::CapAlloc = alloc::CapAlloc;
 
 fn env_u64(k: &str) -> Option<u64> {
     std::env::var(k).ok().and_then(|v| v.trim().parse::<u64>().ok())
@@ -68,6 +74,18 @@ fn main() {
             };
             driver::replay(Path::new(f), &props::find)
         }
+        Some("exec-case") => {
+            let (Some(p), Some(sc), Some(f)) = (args.get(1), args.get(2), args.get(3)) else {
+                std::process::exit(2);
+            };
+            driver::exec_case_main(p, sc, Path::new(f), args.get(4).is_some(), &props::find)
+        }
+        Some("worker") => {
+            let a = |i: usize| args.get(i).cloned().unwrap_or_default();
+            let tier = if a(3) == "thorough" { Tier::Thorough } else { Tier::Quick };
+            driver::worker_main(&a(1), &a(2), tier, a(4).parse().unwrap_or(0), a(5).parse().unwrap_or(0), a(6).parse().unwrap_or(0), &props::find)
+        }
+        Some("hostile-dump") => scen_hostile::dump_main(args.get(1).map_or("", String::as_str)),
         Some("canon-digest") => scen_write::canon_digest_main(args.get(1).map_or("", String::as_str)),
         Some("list") => {
             for p in props::ALL {
